@@ -90,7 +90,7 @@ func checkC08(c c08Case, ctx *vCtx) *vFailure {
 	if len(c.Args) > 0 {
 		ctx.Label("cmd:" + c08CmdWord(c.Args))
 	}
-	ctx.NonTrivial(len(c.Muts) > 0 && len(c.Book) > 0 && len(c.Log) > 0)
+	ctx.NonTrivial(len(c.Book) > 0 && len(c.Log) > 0 && len(c.Args) > 0)
 	cj, _ := json.Marshal(c)
 	c08Watch()
 	c08Mu.Lock()
@@ -161,7 +161,9 @@ var c08DateFormats = []string{"2006/01/02", "2006-01-02", "", " ", "%Y-%m-%d", "
 
 func c08MutateLines(t *rapid.T, text string, isLog bool, muts *[]string) []byte {
 	lines := strings.SplitAfter(text, "\n")
-	n := rapid.IntRange(0, 6).Draw(t, "nmut")
+	// many cases keep a file intact (so that the command gets past parsing and meets the unusual values, sizes and
+	// names), the others get 1-6 mutations
+	n := []int{0, 0, 0, 1, 1, 2, 3, 6}[rapid.IntRange(0, 7).Draw(t, "nmut")]
 	for i := 0; i < n; i++ {
 		kind := rapid.IntRange(0, 23).Draw(t, "mut")
 		pick := func() int {
@@ -486,6 +488,6 @@ func init() { vRegister("C08", "c08.random", checkC08) }
 
 func TestVerifC08Random(t *testing.T) {
 	vRapid(t, "C08", "c08.random",
-		"valid books/logs with 0-6 grammar-aware mutations per file (24 kinds: degenerate notes and entries, truncated line, dropped value, NaN/Inf/1e400/hex/empty numbers, stray separators, invalid UTF-8, NUL, BOM, CR-only, 70 KiB line, empty file, comments only, entries before any heading, duplicate headings, cycles of length 1/2/6, chains 12/300/2000 deep, 1e308 values, 1000x repeated lines, 500-entry recipes) x every command and sub-command with drawn flag shapes (short/long/= forms, env vs flag, global vs sub-command periods from a dictionary of dates, keywords, natural-language phrases and garbage, --maxdepth 0..1e8, odd --date-format, invalid regexps, --no-database, missing paths, directories, missing arguments, unknown flags); in process (recovered panic = failure, 60 s watchdog) and 1/15 through the real binary (no signal, no runtime trace, same verdict, message on failure); non-trivial = at least one mutation and both files non-empty",
+		"valid books/logs with 0-6 grammar-aware mutations per file (24 kinds: degenerate notes and entries, truncated line, dropped value, NaN/Inf/1e400/hex/empty numbers, stray separators, invalid UTF-8, NUL, BOM, CR-only, 70 KiB line, empty file, comments only, entries before any heading, duplicate headings, cycles of length 1/2/6, chains 12/300/2000 deep, 1e308 values, 1000x repeated lines, 500-entry recipes) x every command and sub-command with drawn flag shapes (short/long/= forms, env vs flag, global vs sub-command periods from a dictionary of dates, keywords, natural-language phrases and garbage, --maxdepth 0..1e8, odd --date-format, invalid regexps, --no-database, missing paths, directories, missing arguments, unknown flags); in process (recovered panic = failure, 60 s watchdog) and 1/15 through the real binary (no signal, no runtime trace, same verdict, message on failure); non-trivial = both files non-empty and a command given (distinct by files, arguments and environment)",
 		vBudget(40000, 480000), genC08, checkC08)
 }
